@@ -1026,9 +1026,197 @@ Proof.
     apply get_height in E. specialize (IH c H). unfold sdim in *. cbn [length] in *. lia.
 Qed.
 
+Lemma lb_sibs_get_some x z r : lb_sibs x r -> get z r <> None -> x < z.
+Proof. intros H Hg. destruct (Z_lt_le_dec x z); auto. exfalso. apply Hg. eapply lb_sibs_get_lt; eauto. Qed.
+Lemma find_val_head_get z t l : find_val (z :: t) l <> None -> get z l <> None.
+Proof.
+  intros H Hg. apply H. unfold find_val. destruct t; [rewrite find_one, Hg | rewrite find_cons2, Hg]; reflexivity.
+Qed.
+
+Lemma nonnil_vertex (l : sibs) : l <> [] -> exists x, find_val [x] l <> None.
+Proof.
+  destruct l as [|[[x w] c] r]; [congruence|]. intros _. exists x. rewrite find_val_cons_eq_one. congruence.
+Qed.
+(* the three kinds of words of (x,w,c) :: r *)
+Lemma key_cons x w c0 r t' : wf ((x, w, Node c0) :: r) -> t' <> [] ->
+  (find_val t' ((x, w, Node c0) :: r) <> None <->
+   t' = [x] \/ (exists t'', t'' <> [] /\ t' = x :: t'' /\ find_val t'' c0 <> None) \/ find_val t' r <> None).
+Proof.
+  intros Hwf Ht. apply wf_cons in Hwf as (Hlb & Hc & Hr). destruct t' as [|z tt]; [congruence|]. split.
+  - intro H. destruct (Z.compare_spec z x) as [E|E|E].
+    + subst z. destruct tt as [|y tt']; [left; auto|]. right; left.
+      rewrite find_val_cons_eq_deep in H. exists (y :: tt'). repeat split; auto; congruence.
+    + rewrite find_val_cons_lt in H by auto. congruence.
+    + rewrite find_val_cons_gt in H by auto. right; right; auto.
+  - intros [H|[(t'' & Hne & Heq & Hf)|H]].
+    + inversion H; subst. rewrite find_val_cons_eq_one. congruence.
+    + inversion Heq; subst. destruct t'' as [|y t3]; [congruence|]. rewrite find_val_cons_eq_deep. exact Hf.
+    + assert (x < z).
+      { apply lb_sibs_get_some with (r := r); auto. apply find_val_head_get with (t := tt). exact H. }
+      rewrite find_val_cons_gt by auto. exact H.
+Qed.
+
+
+(* ------------------------------------------------------------------------------------------------ num_simplices_by_dimension *)
+Definition incr (d : nat) (a : list Z) : list Z := firstn d a ++ [nth d a 0 + 1] ++ skipn (S d) a.
+Lemma incr_0 x a : incr 0 (x :: a) = (x + 1) :: a.
+Proof. reflexivity. Qed.
+Lemma incr_S d x a : incr (S d) (x :: a) = x :: incr d a.
+Proof. reflexivity. Qed.
+Lemma incr_length : forall d a, (d < length a)%nat -> length (incr d a) = length a.
+Proof.
+  induction d as [|d IH]; intros [|x a] H; cbn [length] in *; try lia.
+  - reflexivity.
+  - rewrite incr_S. cbn [length]. rewrite IH by lia. reflexivity.
+Qed.
+Lemma incr_nth_same : forall d a, (d < length a)%nat -> nth d (incr d a) 0 = nth d a 0 + 1.
+Proof.
+  induction d as [|d IH]; intros [|x a] H; cbn [length] in *; try lia.
+  - reflexivity.
+  - rewrite incr_S. cbn [nth]. apply IH. lia.
+Qed.
+Lemma incr_nth_other : forall d a i, (d < length a)%nat -> i <> d -> nth i (incr d a) 0 = nth i a 0.
+Proof.
+  induction d as [|d IH]; intros [|x a] i H Hi; cbn [length] in *; try lia.
+  - rewrite incr_0. destruct i; [congruence | reflexivity].
+  - rewrite incr_S. destruct i; [reflexivity|]. cbn [nth]. apply IH; lia.
+Qed.
+
+Definition counts_sibs (d : nat) (l : sibs) (acc : list Z) : option (list Z) := counts_t (Node l) d acc.
+Lemma counts_t_node l d acc : counts_t (Node l) d acc = counts_sibs d l acc.
+Proof. reflexivity. Qed.
+Lemma counts_fold_none d : forall l,
+  fold_left (fun (o : option (list Z)) (e : Z * V * trie) =>
+               let '(_, _, c) := e in
+               match o with
+               | None => None
+               | Some a => if (d <? length a)%nat then counts_t c (S d) (firstn d a ++ [nth d a 0 + 1] ++ skipn (S d) a) else None
+               end) l None = None.
+Proof. induction l as [|[[x w] c] r IH]; cbn [fold_left]; auto. Qed.
+Lemma counts_sibs_nil d acc : counts_sibs d [] acc = Some acc.
+Proof. reflexivity. Qed.
+Lemma counts_sibs_cons d x w c r acc :
+  counts_sibs d ((x, w, c) :: r) acc =
+  if (d <? length acc)%nat then
+    match counts_t c (S d) (incr d acc) with Some a' => counts_sibs d r a' | None => None end
+  else None.
+Proof.
+  unfold counts_sibs. cbn [counts_t fold_left]. fold (incr d acc).
+  destruct (d <? length acc)%nat; [|apply counts_fold_none].
+  destruct (counts_t c (S d) (incr d acc)); [reflexivity | apply counts_fold_none].
+Qed.
+Global Opaque counts_sibs.
+
+(* res = acc + (number of words of l per depth), as far as positivity is concerned *)
+Definition counts_rel (d : nat) (l : sibs) (acc res : list Z) : Prop :=
+  length res = length acc /\
+  (forall i, nth i acc 0 <= nth i res 0) /\
+  (forall t', t' <> [] -> find_val t' l <> None ->
+              nth (d + length t' - 1) acc 0 < nth (d + length t' - 1) res 0) /\
+  (forall i, nth i acc 0 < nth i res 0 ->
+             exists t', t' <> [] /\ find_val t' l <> None /\ (d + length t' - 1 = i)%nat).
+
+Theorem counts_correct : forall l, wf l -> forall d acc res, counts_sibs d l acc = Some res -> counts_rel d l acc res.
+Proof.
+  apply (sibs_trie_ind (fun c => wf_t c -> forall d acc res, counts_t c d acc = Some res -> counts_rel d (kids c) acc res)
+                       (fun l => wf l -> forall d acc res, counts_sibs d l acc = Some res -> counts_rel d l acc res)).
+  - intros l H Hw d acc res Hc. cbn [kids]. apply H; auto; try (rewrite <- wf_t_node; auto).
+  - intros _ d acc res H. rewrite counts_sibs_nil in H. inversion H; subst. unfold counts_rel.
+    split; auto. split; [intros; lia|]. split.
+    + intros t' _ Hf. rewrite find_val_nil_l in Hf. congruence.
+    + intros i Hi. lia.
+  - intros x w c r IHc IHr Hwf d acc res H. destruct c as [c0].
+    pose proof Hwf as Hwf0. apply wf_cons in Hwf as (Hlb & Hc & Hr).
+    rewrite counts_sibs_cons in H. destruct (d <? length acc)%nat eqn:Ed; [|discriminate].
+    apply Nat.ltb_lt in Ed.
+    destruct (counts_t (Node c0) (S d) (incr d acc)) as [a2|] eqn:E2; [|discriminate].
+    destruct (IHc Hc (S d) (incr d acc) a2 E2) as (L1 & M1 & K1 & C1). cbn [kids] in *.
+    destruct (IHr Hr d a2 res H) as (L2 & M2 & K2 & C2).
+    assert (M0 : forall i, nth i acc 0 <= nth i (incr d acc) 0).
+    { intro i. destruct (Nat.eq_dec i d) as [->|Hi]; [rewrite incr_nth_same by auto; lia | rewrite incr_nth_other by auto; lia]. }
+    unfold counts_rel. split; [rewrite L2, L1; apply incr_length; auto|]. split.
+    { intro i. specialize (M0 i). specialize (M1 i). specialize (M2 i). lia. } split.
+    + intros t' Hne Hf. apply key_cons in Hf as [Hf|[(t'' & Hne'' & Heq & Hf)|Hf]]; auto.
+      * subst t'. cbn [length]. replace (d + 1 - 1)%nat with d by lia.
+        pose proof (incr_nth_same d acc Ed). specialize (M1 d). specialize (M2 d). lia.
+      * subst t'. cbn [length]. replace (d + S (length t'') - 1)%nat with (S d + length t'' - 1)%nat by lia.
+        specialize (K1 t'' Hne'' Hf). specialize (M0 (S d + length t'' - 1)%nat). specialize (M2 (S d + length t'' - 1)%nat). lia.
+      * specialize (K2 t' Hne Hf). specialize (M0 (d + length t' - 1)%nat). specialize (M1 (d + length t' - 1)%nat). lia.
+    + intros i Hi.
+      destruct (Z_lt_ge_dec (nth i a2 0) (nth i res 0)) as [H3|H3].
+      * destruct (C2 i H3) as (t' & Hne & Hf & Hidx). exists t'. repeat split; auto. apply key_cons; auto.
+      * destruct (Z_lt_ge_dec (nth i (incr d acc) 0) (nth i a2 0)) as [H2|H2].
+        -- destruct (C1 i H2) as (t'' & Hne & Hf & Hidx). exists (x :: t''). split; [congruence|]. split.
+           ++ apply key_cons; auto; [congruence|]. right; left. exists t''. auto.
+           ++ cbn [length]. lia.
+        -- assert (Hid : i = d).
+           { destruct (Nat.eq_dec i d); auto. rewrite incr_nth_other in H2 by auto. lia. }
+           subst i. exists [x]. split; [congruence|]. split; [rewrite find_val_cons_eq_one; congruence | cbn [length]; lia].
+Qed.
+
+(* pop_back while back() == 0 *)
+Lemma strip_zeros_spec : forall r, exists zs, r = zs ++ strip_zeros r /\ Forall (eq 0) zs /\
+                                              (strip_zeros r = [] \/ hd 0 (strip_zeros r) <> 0).
+Proof.
+  induction r as [|y r IH].
+  - exists []. cbn. auto.
+  - destruct (Z.eq_dec y 0) as [->|Hy].
+    + destruct IH as (zs & H1 & H2 & H3). exists (0 :: zs). cbn [strip_zeros app]. split; [f_equal; auto|]. split; auto.
+    + exists []. assert (strip_zeros (y :: r) = y :: r) as -> by (destruct y; try reflexivity; congruence).
+      cbn [app hd]. auto.
+Qed.
+Lemma strip_back_spec res : let res' := rev (strip_zeros (rev res)) in
+  exists zs, res = res' ++ zs /\ Forall (eq 0) zs /\ (res' = [] \/ nth (length res' - 1) res' 0 <> 0).
+Proof.
+  intro res'. destruct (strip_zeros_spec (rev res)) as (zs & H1 & H2 & H3).
+  exists (rev zs). split; [|split].
+  - unfold res'. rewrite <- rev_app_distr, <- H1, rev_involutive. reflexivity.
+  - rewrite Forall_forall in *. intros u Hu. apply H2. apply in_rev; auto.
+  - unfold res'. destruct (strip_zeros (rev res)) as [|y q]; [left; reflexivity|]. right. cbn [hd] in H3.
+    destruct H3 as [H3|H3]; [discriminate|]. cbn [rev]. rewrite app_length. cbn [length].
+    replace (length (rev q) + 1 - 1)%nat with (length (rev q)) by lia. rewrite app_nth2 by lia.
+    rewrite Nat.sub_diag. exact H3.
+Qed.
+Lemma nth_zeros zs k : Forall (eq 0) zs -> nth k zs 0 = 0.
+Proof.
+  intro H. destruct (Nat.lt_ge_cases k (length zs)) as [Hk|Hk]; [|apply nth_overflow; auto].
+  rewrite Forall_forall in H. symmetry. apply H. apply nth_In; auto.
+Qed.
+Lemma nth_repeat0 n k : nth k (repeat 0 n) 0 = 0.
+Proof. apply nth_zeros. rewrite Forall_forall. intros u Hu. apply repeat_spec in Hu. auto. Qed.
+
+(* the write-back of num_simplices_by_dimension when a recomputation was pending *)
+Lemma count_by_dim_dirty st res :
+  wf (tree st) -> tree st <> [] ->
+  counts_t (Node (tree st)) 0 (repeat 0 (Z.to_nat (Z.min (dim_ub st + 1) 41))) = Some res ->
+  let res' := rev (strip_zeros (rev res)) in
+  (forall t, t <> [] -> find_val t (tree st) <> None -> sdim t <= Z.of_nat (length res') - 1) /\
+  (exists t, t <> [] /\ find_val t (tree st) <> None /\ sdim t = Z.of_nat (length res') - 1).
+Proof.
+  intros Hwf Hne Hc res'. rewrite counts_t_node in Hc.
+  destruct (counts_correct _ Hwf _ _ _ Hc) as (L & M & Kp & Cv).
+  destruct (strip_back_spec res) as (zs & Hres & Hz & Hlast). fold res' in Hres, Hlast.
+  assert (Hpos : forall t, t <> [] -> find_val t (tree st) <> None -> (length t - 1 < length res')%nat).
+  { intros t Ht Hf. specialize (Kp t Ht Hf). cbn [Nat.add] in Kp. rewrite nth_repeat0 in Kp.
+    destruct (Nat.lt_ge_cases (length t - 1) (length res')) as [Hk|Hk]; auto. exfalso.
+    rewrite Hres, app_nth2, nth_zeros in Kp by auto. lia. }
+  split.
+  - intros t Ht Hf. specialize (Hpos t Ht Hf). unfold sdim. destruct t; [congruence|]. cbn [length] in *. lia.
+  - destruct Hlast as [Hnil|Hnz].
+    + exfalso. destruct (nonnil_vertex _ Hne) as (x & Hx). specialize (Hpos [x]). rewrite Hnil in Hpos. cbn [length] in Hpos.
+      assert ((0 < 0)%nat); [apply Hpos; [congruence | exact Hx] | lia].
+    + assert (Hl : (0 < length res')%nat).
+      { destruct res'; [cbn in Hnz; congruence | cbn; lia]. }
+      assert (Hgt : nth (length res' - 1) (repeat 0 (Z.to_nat (Z.min (dim_ub st + 1) 41))) 0 < nth (length res' - 1) res 0).
+      { rewrite nth_repeat0. rewrite Hres, app_nth1 by lia.
+        specialize (M (length res' - 1)%nat). rewrite nth_repeat0, Hres, app_nth1 in M by lia. lia. }
+      destruct (Cv _ Hgt) as (t & Ht & Hf & Hidx). exists t. split; auto. split; auto.
+      unfold sdim. cbn [Nat.add] in Hidx. destruct t; [congruence|]. cbn [length] in *. lia.
+Qed.
+
 Definition refined_op (o : op) : bool :=
   match o with
-  | OInsert _ _ | OInsertSub _ _ | OBatch _ _ | ORemove _ | OPruneF _ | OPruneD _ | OClear | ODim => true
+  | OInsert _ _ | OInsertSub _ _ | OBatch _ _ | ORemove _ | OPruneF _ | OPruneD _ | OClear | ODim | OCount => true
   | _ => false
   end.
 
@@ -1106,6 +1294,13 @@ Proof.
     unfold dimension. destruct (dirty st); cbn [fst]; auto.
     intros t Ht. cbn [lower_ub tree dim_ub]. intro H. specialize (Hub t Ht H).
     pose proof (find_height t (tree st) H). unfold exact_dim. destruct (dim_ub st <=? height_t (Node (tree st))); lia.
+  - (* num_simplices_by_dimension() *)
+    unfold count_by_dim. destruct (is_empty st) eqn:Ee; cbn [fst]; auto.
+    destruct (counts_t (Node (tree st)) 0 (repeat 0 (Z.to_nat (Z.min (dim_ub st + 1) 41)))) as [res|] eqn:Ec; cbn [fst]; auto.
+    destruct (dirty st); cbn [fst]; auto.
+    assert (Hne : tree st <> []) by (unfold is_empty in Ee; destruct (tree st); [discriminate | congruence]).
+    destruct (count_by_dim_dirty st res Hwf Hne Ec) as [H1 _].
+    intros t Ht Hf. cbn [tree dim_ub] in *. apply H1; auto.
 Qed.
 
 Definition inv (st : state) (K : cplx) : Prop := agree (tree st) K /\ ub_valid st.
@@ -1122,6 +1317,7 @@ Proof.
   - apply step_agree; auto.
   - apply step_agree_prune_f; auto.
   - apply step_agree_prune_d; auto.
+  - apply step_agree; auto.
   - apply step_agree; auto.
   - apply step_agree; auto.
 Qed.
@@ -1179,20 +1375,13 @@ Proof. repeat split; reflexivity. Qed.
 Definition example_history : list op :=
   [OBatch [4; 0] 1; OInsertSub [3; 1; 2] 2; OInsertSub [0; 1] 3; OInsert [0; 2] 5; ODim; OInsertSub [2; 1; 3] 1;
    ORemove [1; 2; 3]; OPruneD 1; OInsertSub [0; 1; 2] 7; OPruneF 5; ORemove [4]; ODim; OInsertSub [1; 2; 3; 4] 0;
-   OPruneD 2; OClear; OInsert [7] 0].
+   OPruneD 2; OCount; OClear; OInsert [7] 0].
 Lemma example_history_ok :
   forallb refined_op example_history = true /\ ok_history example_history = true /\
   length (spec_run (firstn 14 example_history)) = 17%nat.
 Proof. repeat split; vm_compute; reflexivity. Qed.
 
 (* ------------------------------------------------------------------------------------------------ enumeration *)
-Lemma lb_sibs_get_some x z r : lb_sibs x r -> get z r <> None -> x < z.
-Proof. intros H Hg. destruct (Z_lt_le_dec x z); auto. exfalso. apply Hg. eapply lb_sibs_get_lt; eauto. Qed.
-Lemma find_val_head_get z t l : find_val (z :: t) l <> None -> get z l <> None.
-Proof.
-  intros H Hg. apply H. unfold find_val. destruct t; [rewrite find_one, Hg | rewrite find_cons2, Hg]; reflexivity.
-Qed.
-
 Theorem in_abs : forall l, wf l -> forall t v, In (t, v) (abs l) <-> (t <> [] /\ find_val t l = Some v).
 Proof.
   apply (sibs_trie_ind (fun c => wf_t c -> forall t v, In (t, v) (abs_t c) <-> (t <> [] /\ find_val t (kids c) = Some v))
@@ -1292,10 +1481,6 @@ Definition dim_attained (st : state) : Prop :=
   (tree st = [] /\ dim_ub st = -1) \/ (exists t, t <> [] /\ find_val t (tree st) <> None /\ sdim t = dim_ub st).
 Definition dim_exact (st : state) : Prop := dirty st = false -> dim_attained st.
 
-Lemma nonnil_vertex (l : sibs) : l <> [] -> exists x, find_val [x] l <> None.
-Proof.
-  destruct l as [|[[x w] c] r]; [congruence|]. intros _. exists x. rewrite find_val_cons_eq_one. congruence.
-Qed.
 Lemma height_nil : height_t (Node []) = -1.
 Proof. reflexivity. Qed.
 Lemma height_witness : forall l, wf l -> l <> [] ->
@@ -1416,6 +1601,8 @@ Proof.
     + destruct (_ =? _); auto. cbn [dim_ub]. lia.
   - unfold dimension. destruct (dirty st); cbn [fst]; auto. cbn [lower_ub dim_ub].
     pose proof (height_lb (Node (tree st))). unfold exact_dim. destruct (_ <=? _); lia.
+  - unfold count_by_dim. destruct (is_empty st); cbn [fst]; auto.
+    destruct (counts_t _ _ _); cbn [fst]; auto. destruct (dirty st); cbn [fst]; auto. cbn [dim_ub]. lia.
 Qed.
 
 Lemma present_ins_raw s v l t : s <> [] -> t <> [] -> find_val t l <> None -> find_val t (ins_raw s v l) <> None.
@@ -1518,6 +1705,13 @@ Proof.
       exists t. split; auto. split; auto.
       assert (sdim t <= dim_ub st) by (apply Hub; auto).
       destruct (dim_ub st <=? height_t (Node (tree st))) eqn:E; lia.
+  - (* num_simplices_by_dimension() *)
+    unfold count_by_dim. destruct (is_empty st) eqn:Ee; cbn [fst]; auto.
+    destruct (counts_t (Node (tree st)) 0 (repeat 0 (Z.to_nat (Z.min (dim_ub st + 1) 41)))) as [res|] eqn:Ec; cbn [fst]; auto.
+    destruct (dirty st) eqn:Ed; cbn [fst]; [|rewrite Ed; auto].
+    assert (Hne : tree st <> []) by (unfold is_empty in Ee; destruct (tree st); [discriminate | congruence]).
+    destruct (count_by_dim_dirty st res Hwf Hne Ec) as [_ (t & Ht & Hf & Hd)].
+    intros _. right. cbn [tree dim_ub]. exists t. auto.
 Qed.
 
 Lemma in_lookup K t v : In (t, v) K -> lookup K t <> None.
